@@ -11,7 +11,8 @@
                         one-item sequence
      reroot it          the root item _SR.from_dataset rebuilds from a parsed dataset
      root_typed it      it has no referenced instance and no optional attribute
-                        other than template (key 1) and continuity (key 2)
+                        other than template (key 1), continuity (key 2) and what the coded
+                        entry of its concept name carries (key 14)
      attr_get k a       the values of optional attribute k
      is_report it       it declares template identifier 1500
      holds_3d c         the document class can hold 3-D coordinates
@@ -239,7 +240,8 @@ Proof. exact srread_spec. Qed.
 Print Assumptions C15_srread_spec.
 
 (* parsing a written document exposes an equal tree (and the same document) EXACTLY when the root
-   given carries no optional attribute besides template and continuity - which is all a
+   given carries no optional attribute besides template, continuity and what the coded entry of its
+   concept name carries (key 14: the whole ConceptNameCodeSequence is copied) - which is all a
    ContainerContentItem can be constructed with, for every declared template (1500 or not) *)
 Theorem C15_srread_roundtrip : forall c a d, sr_init c a = Ok d ->
   (srread d = Ok (c, d) <-> root_typed (d_content d)).
@@ -535,16 +537,16 @@ Print Assumptions C15_key_object_parse.
 
 (* build from a KeyObjectSelection, write, parse: the document that was written (content tree,
    evidence, hence every resolve_reference answer) *)
-Theorem C15_key_object_roundtrip : forall ev ts title descr refs root d,
-  ko_content title descr refs = Ok root -> ko_init ev ts root = Ok d ->
+Theorem C15_key_object_roundtrip : forall ev ts title tx descr refs root d,
+  ko_content title tx descr refs = Ok root -> ko_init ev ts root = Ok d ->
   ko_from_dataset true d = Ok d.
 Proof. exact ko_roundtrip. Qed.
 Print Assumptions C15_key_object_roundtrip.
 
 (* get_references lists the selected objects exactly as given (order and repeats kept, the
    description item never), filtered by value type / referenced SOP class; other value types refused *)
-Theorem C15_key_object_references : forall title descr refs root,
-  ko_content title descr refs = Ok root ->
+Theorem C15_key_object_references : forall title tx descr refs root,
+  ko_content title tx descr refs = Ok root ->
   ko_get_references None None root = Ok (map ko_ref_item refs) /\
   (forall cf, ko_get_references None cf root = Ok (filter (cls_ok cf) (map ko_ref_item refs))) /\
   (forall t cf, ref_vt t = true ->
@@ -555,7 +557,7 @@ Proof. exact ko_references_listed. Qed.
 Print Assumptions C15_key_object_references.
 
 Example C15_key_object_example :
-  exists root d, ko_content 113000 (Some 2) [(1, 0, true); (2, 1, false); (1, 0, true)] = Ok root /\
+  exists root d, ko_content 113000 [4; 5; 17010] (Some 2) [(1, 0, true); (2, 1, false); (1, 0, true)] = Ok root /\
     ko_init ko_ex_ev true root = Ok d /\ ko_from_dataset true d = Ok d /\
     d_current d = [(1, [(11, [(1, 0)]); (12, [(2, 1)])])] /\
     resolve_reference d 2 = Ok (1, 12, 2) /\ resolve_reference d 3 = Err "ValueError" /\
@@ -670,3 +672,50 @@ Example C15_verification_example :
     d_observer d = Some (7, 8) /\ d_extras d = Recorded (Some 3) (Some 4) (Some []) (Some [9]).
 Proof. exact verification_example. Qed.
 Print Assumptions C15_verification_example.
+
+(* ==== coded entries (session 6) ========================================================================
+   What a coded entry carries beyond code value / scheme designator / meaning (long or URN form of the
+   value, scheme version, context group identification and extension, mapping resource, equivalent codes)
+   is an optional attribute of the item: 14 concept name, 15 value of a CODE item, 16 unit and 17
+   qualifier of a NUM item.
+     entry_view k it    (concept name of it, what it carries under key k)
+   For every accepted document: the content IS the root given (coded entries of every item included);
+   the parsed document exposes the root's name with its coded-entry attributes, every descendant as it
+   is - hence, for every key, the same list of (name, attribute) in document order - and it EQUALS the
+   written document when the root carries nothing but template, continuity and its name entry. *)
+Theorem C15_coded_entries_kept : forall c a d root, sr_init c a = Ok d -> single_root (a_content a) = Some root ->
+  d_content d = root /\
+  exists d', srread d = Ok (c, d') /\
+    entry_view k_name_entry (d_content d') = entry_view k_name_entry root /\
+    descendants (d_content d') = descendants root /\
+    (forall k, map (entry_view k) (descendants (d_content d')) = map (entry_view k) (descendants root)) /\
+    ((forall kv, In kv (i_attrs root) -> root_key (fst kv) = true) -> i_ref root = None ->
+     d' = d /\ d_content d' = root).
+Proof. exact coded_entries_kept. Qed.
+Print Assumptions C15_coded_entries_kept.
+
+Theorem C15_coded_entries_from_dataset : forall target has_cs d d', sr_from_dataset target has_cs d = Ok d' ->
+  entry_view k_name_entry (d_content d') = entry_view k_name_entry (d_content d) /\
+  descendants (d_content d') = descendants (d_content d).
+Proof. exact coded_entries_from_dataset. Qed.
+Print Assumptions C15_coded_entries_from_dataset.
+
+(* key object documents: the coded entry given as document title, whatever it carries (tx), is in the
+   document, and the parsed document is the document written *)
+Theorem C15_key_object_title_entry : forall ev ts title tx descr refs root d,
+  ko_content title tx descr refs = Ok root -> ko_init ev ts root = Ok d ->
+  i_tag (d_content d) = title /\
+  attr_get k_name_entry (i_attrs (d_content d)) = (match tx with [] => None | _ => Some tx end) /\
+  ko_from_dataset true d = Ok d.
+Proof. exact ko_title_entry. Qed.
+Print Assumptions C15_key_object_title_entry.
+
+Example C15_coded_entries_example :
+  exists d, sr_init Comprehensive
+              (Args [Evd 1 0 1 11] (CDataset entry_tree) true true false false false None None None true no_extras) = Ok d /\
+    d_content d = entry_tree /\ srread d = Ok (Comprehensive, d) /\
+    map (entry_view k_qualifier_entry) (descendants (d_content d)) =
+      [(2, None); (3, None); (4, Some [41; 50007]); (5, None)] /\
+    entry_view k_name_entry (d_content d) = (1, Some [4; 5; 17021; 27021]).
+Proof. exact entry_example. Qed.
+Print Assumptions C15_coded_entries_example.
